@@ -174,18 +174,21 @@ type listener struct {
 	option   []transport.Option
 	options  *transport.Options
 	acceptor transport.Acceptor
+	mutex    sync.Mutex // guards options and acceptor
 }
 
 // Acceptor returned the acceptor
 func (l *listener) Acceptor() transport.Acceptor {
+	l.mutex.Lock()
+	defer l.mutex.Unlock()
 	return l.acceptor
 }
 
 // Close listener
 func (l *listener) Close() error {
 	l.bs.removeListener(l.url)
-	if l.acceptor != nil {
-		return l.acceptor.Close()
+	if acceptor := l.Acceptor(); acceptor != nil {
+		return acceptor.Close()
 	}
 	return nil
 }
@@ -193,33 +196,48 @@ func (l *listener) Close() error {
 // Sync accept new transport from listener
 func (l *listener) Sync() error {
 
-	if nil != l.acceptor {
-		return fmt.Errorf("duplicate call Listener:Sync")
-	}
-
-	var err error
-	if l.options, err = transport.ParseOptions(l.bs.Context(), l.url, l.option...); nil != err {
-		return err
-	}
-
-	if l.acceptor, err = l.bs.transportFactory.Listen(l.options); nil != err {
+	acceptor, options, err := l.listen()
+	if nil != err {
 		return err
 	}
 
 	for {
 		// accept the transport
-		t, err := l.acceptor.Accept()
+		t, err := acceptor.Accept()
 		if nil != err {
 			select {
-			case <-l.options.Context.Done():
+			case <-options.Context.Done():
 				return ErrServerClosed
 			default:
 				return err
 			}
 		}
 
-		l.bs.ServeChannel(l.options.Context, t, l.options.Attachment, true)
+		l.bs.ServeChannel(options.Context, t, options.Attachment, true)
 	}
+}
+
+// listen creates the acceptor of the listener
+func (l *listener) listen() (transport.Acceptor, *transport.Options, error) {
+	l.mutex.Lock()
+	defer l.mutex.Unlock()
+
+	if nil != l.acceptor {
+		return nil, nil, fmt.Errorf("duplicate call Listener:Sync")
+	}
+
+	options, err := transport.ParseOptions(l.bs.Context(), l.url, l.option...)
+	if nil != err {
+		return nil, nil, err
+	}
+	l.options = options
+
+	acceptor, err := l.bs.transportFactory.Listen(options)
+	if nil != err {
+		return nil, nil, err
+	}
+	l.acceptor = acceptor
+	return acceptor, options, nil
 }
 
 // Async accept new transport from listener
